@@ -18,6 +18,9 @@ use crate::errors::{Error, Result};
 use bytes::{BufMut, BytesMut};
 use std::time::Duration;
 use tokio::io::{AsyncReadExt, AsyncWriteExt};
+#[cfg(edp_verif)]
+use crate::verif::TcpStream;
+#[cfg(not(edp_verif))]
 use tokio::net::TcpStream;
 
 /// Default EPMD port
